@@ -42,12 +42,17 @@ CONFIGS = {
     "simd-static-avx2": dict(feat=NAIVE + " tlsh/simd", rustflags="-C target-feature=+avx2"),
     "naive-unsafe": dict(feat=NAIVE + " tlsh/unsafe"),
     "nostd": dict(feat=""),
+    # the library with neither std nor alloc, statically selected SIMD back ends
+    "nostd-simd-sse2": dict(feat="tlsh/simd"),
+    "nostd-simd-ssse3": dict(feat="tlsh/simd", rustflags="-C target-feature=+ssse3"),
+    "nostd-simd-sse41": dict(feat="tlsh/simd", rustflags="-C target-feature=+sse4.1"),
+    "nostd-simd-avx2": dict(feat="tlsh/simd", rustflags="-C target-feature=+avx2"),
     "strict": dict(feat="easy std strict tlsh/opt-default tlsh/simd tlsh/detect-features"),
     "serde": dict(feat="easy std serde tlsh/opt-default tlsh/simd tlsh/detect-features"),
     "serde-strict": dict(feat="easy std serde strict tlsh/opt-default tlsh/simd tlsh/detect-features"),
     "serde-buffered-strict": dict(feat="easy std serde strict tlsh/serde-buffered tlsh/opt-default tlsh/simd tlsh/detect-features"),
 }
-HEXSIMD = {"default", "default-unsafe", "simd-static-sse2", "simd-static-ssse3", "simd-static-sse41",
+HEXSIMD = {"nostd-simd-sse2", "nostd-simd-ssse3", "nostd-simd-sse41", "nostd-simd-avx2", "default", "default-unsafe", "simd-static-sse2", "simd-static-ssse3", "simd-static-sse41",
            "simd-static-avx2", "strict", "serde", "serde-strict", "serde-buffered-strict"}
 for _n, _c in CONFIGS.items():
     if _n in HEXSIMD:
@@ -125,7 +130,7 @@ class Crash(Exception):
         self.cmd, self.rc, self.out = cmd, rc, out
 
 
-def record(cfg, family, out_path, seed, tier, variant=None, extra=(), profile="checked", timeout=1800):
+def record(cfg, family, out_path, seed, tier, variant=None, extra=(), profile="checked", timeout=900):
     os.makedirs(os.path.dirname(out_path), exist_ok=True)
     cmd = [binary(cfg, profile), family, "--seed", str(seed), "--tier", tier, "--out", out_path]
     if variant:
